@@ -30,6 +30,7 @@ def run(ctx):
     P = semcheck.gen_programs(ctx.seed * 7919 + 71, ctx.pick(110, 1400), "strat", p_edge=True)
     P += common.family_small(ctx.pick(50, 700), ctx.seed + 7000)
     P += common.cyclic_family(ctx.pick(120, 1500), ctx.seed + 7100, evidence=0.3)
+    P += common.repvar_family(ctx.pick(60, 800), ctx.seed + 7150)
     P = [p for p in P if len(p["queries"]) + len(p["evidence"]) >= 2]
     rng = random.Random(ctx.seed + 808)
 
